@@ -7,7 +7,7 @@ from props.common_driver import correspond, TRUSTED as T0
 from props.c09 import REAL_SCENARIOS
 
 GENERATORS = []
-COQ_TARGETS = ['Driver/Script.vo', 'Driver/PidQueue.vo']
+COQ_TARGETS = ['Driver/Script.vo', 'Driver/PidQueue.vo', 'Driver/PidQueueCorr.vo']
 RULE = ('shim runs over every exit path of run_pass (normal, zero size, PassBugError with die_on_pass_bug, growth bail-out, '
         'limits, cache hits, STOP/ERROR, timeouts), save_temps off, k in 1..3: listing of a private TMPDIR after each return or '
         'raise must be empty and futures/temporary_folders empty; real-pool runs with fast / failing / self-killing / hanging / '
@@ -48,8 +48,14 @@ def oracle(ctx, sc, o):
     return nt
 
 
+ERROR_EXIT = ('error-exit', {'files': [('f0.c', 'abcdef')], 'timeout': 4, 'slow_s': 1.5,
+                            'rules': [([('lenlt', 0, 6)], 'slow'), ([], 0)],
+                            'passes': [{'key': 1, 'ops': [('del', 0), ('del', 1), ('same',), ('del', 2), ('del', 3)], 'aos': 0}],
+                            'cfg': {'N': 4, 'die': True}})
+
+
 def real_case(ctx, sc, tag, fork):
-    o = realrun.run_real(sc, ctx.tmp, timeout=1, fork_on_hang=fork)
+    o = realrun.run_real(sc, ctx.tmp, timeout=sc.get('timeout', 1), fork_on_hang=fork)
     ctx.evaluations += 1
     ctx.count('real-pool:' + tag + (':fork' if fork else ''))
     if o.tmp_listing:
@@ -58,6 +64,95 @@ def real_case(ctx, sc, tag, fork):
         ctx.violation('process-leak', f'real pool: pids {o.alive} still alive after the run', {'scenario': sc, 'kind': 'real', 'fork': fork})
     ctx.nontriv(f'real:{tag}:{fork}')
     return o
+
+
+def pidq_direct(ctx, rnd):
+    """kill_pid_queue itself, on a hand-made event queue over REAL processes: some alive (with a child), some gone
+    and reaped (their pid no longer exists), in random STARTED / FINISHED order.  Afterwards exactly the pids with a
+    STARTED and no later FINISHED must be dead, with their descendants; every other process must still be alive."""
+    import queue
+    import subprocess
+    import time
+    from cvise.passes.abstract import ProcessEvent, ProcessEventType
+    from cvise.utils.testing import TestManager
+    from vlib import coq
+    cases = []
+    for it in range(6 if ctx.quick() else 40):
+        procs, gone = [], []
+        try:
+            for _ in range(rnd.randint(2, 5)):
+                procs.append(subprocess.Popen(['sh', '-c', 'sleep 30 & wait'], stdout=subprocess.DEVNULL, stderr=subprocess.DEVNULL, start_new_session=True))
+            for _ in range(rnd.randint(1, 3)):
+                g = subprocess.Popen(['true'])
+                g.wait()
+                gone.append(g.pid)
+            time.sleep(0.05)
+            kids = {}
+            for pr in procs:
+                try:
+                    kids[pr.pid] = [int(x) for x in open(f'/proc/{pr.pid}/task/{pr.pid}/children').read().split()]
+                except OSError:
+                    kids[pr.pid] = []
+            pids = [pr.pid for pr in procs] + gone
+            evs = []
+            for pid in pids:
+                evs.append(('S', pid))
+                if rnd.random() < 0.4:
+                    evs.append(('F', pid))
+                    if rnd.random() < 0.3:
+                        evs.append(('S', pid))
+            # keep per-pid order, interleave pids
+            order = []
+            by = {pid: [e for e in evs if e[1] == pid] for pid in pids}
+            while any(by.values()):
+                pid = rnd.choice([q for q in pids if by[q]])
+                order.append(by[pid].pop(0))
+            q = queue.Queue()
+            for k, pid in order:
+                q.put(ProcessEvent(pid, ProcessEventType.STARTED if k == 'S' else ProcessEventType.FINISHED))
+            tm = object.__new__(TestManager)
+            tm.pid_queue = q
+            exc = None
+            try:
+                tm.kill_pid_queue()
+            except Exception as e:
+                exc = e
+            time.sleep(0.15)
+            active = set()
+            for k, pid in order:
+                (active.add if k == 'S' else active.discard)(pid)
+            ctx.evaluations += 1
+            ctx.count('kill_pid_queue:direct')
+            rep = {'kind': 'pidq', 'events': [(k, pids.index(pid)) for k, pid in order], 'alive': len(procs), 'gone': len(gone)}
+            if exc is not None:
+                ctx.violation('kill-pid-queue-raises', f'kill_pid_queue raised {type(exc).__name__}: {exc}', rep)
+            for pr in procs:
+                dead = pr.poll() is not None
+                kids_alive = [c for c in kids[pr.pid] if realrun.pid_alive(c)]
+                if pr.pid in active and (not dead or kids_alive):
+                    ctx.violation('process-leak:kill-pid-queue', f'events {rep["events"]} ({len(gone)} of the pids no longer exist): process #{pids.index(pr.pid)} was STARTED and never FINISHED but '
+                                  f'{"is still alive" if not dead else "left its child alive"} after kill_pid_queue', rep)
+                if pr.pid not in active and dead:
+                    ctx.violation('kill-pid-queue-kills-finished', f'events {rep["events"]}: process #{pids.index(pr.pid)} had its FINISHED event but was killed', rep)
+            ctx.nontriv(('pidq', tuple(rep['events'])))
+            idx = {pid: i for i, pid in enumerate(pids)}
+            term = '[' + '; '.join(('Started %d' if k == 'S' else 'Finished %d') % idx[pid] for k, pid in order) + ']'
+            cases.append((term, sorted(idx[p_] for p_ in active)))
+        finally:
+            for pr in procs:
+                try:
+                    os.killpg(pr.pid, 9)        # the whole session of that test process (its own child included)
+                except OSError:
+                    pass
+                try:
+                    pr.wait(timeout=2)
+                except Exception:
+                    pass
+    bad = coq.corr_eval('c08pidq', ['From CV Require Import Driver.PidQueue Driver.PidQueueCorr.'], 'pidq_case', cases, shard=200)
+    ctx.corr_cases += len(cases)
+    ctx.corr_disagree += len(bad)
+    for b in bad[:3]:
+        ctx.broke('correspondence', 'active_pids model vs event bookkeeping', cases[b][0])
 
 
 def explore(ctx):
@@ -79,6 +174,12 @@ def explore(ctx):
         ctx.count('exit:' + ','.join(str(p['code']) for p in o.passes if p['code']) or 'exit:normal')
     ctx.sample({'scenario': {k: each[0][2][k] for k in ('files', 'passes', 'rules', 'cfg', 'sched')}, 'impl_output': each[0][1][:40]})
     correspond(ctx, 'c08', each)
+    pidq_direct(ctx, rnd)
+    # a pass run that ends by an error (PassBugError, --die-on-pass-bug) while other candidates' tests are still running
+    o = real_case(ctx, ERROR_EXIT[1], ERROR_EXIT[0], False)
+    if not any(p['code'] for p in o.passes):
+        ctx.broke('harness', 'error-exit scenario', 'the run did not end by an error')
+    ctx.sample({'real_pool': 'error-exit', 'tests_started': len(o.log), 'alive_after': o.alive, 'exit': [p['code'] for p in o.passes]})
     reals = REAL_SCENARIOS if not ctx.quick() else REAL_SCENARIOS[:2]
     for tag, sc in reals:
         for fork in ((False, True) if tag != 'two-files' else (False,)):
@@ -88,6 +189,9 @@ def explore(ctx):
 
 def replay(ctx, payload):
     r = payload['replay']
+    if r.get('kind') == 'pidq':
+        pidq_direct(ctx, random.Random(1))
+        return
     if r.get('kind') == 'real':
         real_case(ctx, r['scenario'], 'replay', r.get('fork', False))
         return
